@@ -4,6 +4,8 @@ import (
 	"context"
 	"fmt"
 	stdnet "net"
+	"strconv"
+	"strings"
 	stdsync "sync"
 	"time"
 
@@ -12,6 +14,9 @@ import (
 	nri "github.com/containerd/nri/pkg/adaptation"
 	"github.com/containerd/nri/pkg/api"
 	"github.com/containerd/nri/pkg/stub"
+	"github.com/containerd/ttrpc"
+	"google.golang.org/grpc/codes"
+	"google.golang.org/grpc/status"
 	"google.golang.org/protobuf/proto"
 )
 
@@ -38,6 +43,7 @@ type Reply struct {
 	Adjust  *api.ContainerAdjustment
 	Updates []*api.ContainerUpdate
 	Err     string // non-empty: handler returns this error
+	ErrKind string // flavour of the error value: "" plain; "deadline" / "canceled" (the context errors); "closed" (ttrpc.ErrClosed); "status:<n>" (status error with gRPC code n)
 	Hang    bool   // handler never returns (until teardown)
 	SleepMs int    // the handler takes this much simulated time before it answers
 }
@@ -316,10 +322,45 @@ func (p *Plug) enter(rpc, token string, en *Entry) *Reply {
 }
 
 func rerr(r *Reply) error {
-	if r.Err != "" {
-		return fmt.Errorf("%s", r.Err)
+	if r.Err == "" {
+		return nil
 	}
-	return nil
+	return ErrValue(r.ErrKind, r.Err)
+}
+
+// ErrKinds are the flavours of error value a handler may deliberately return. Whatever the value, it
+// is the handler's own error - not a failure of the plugin.
+var ErrKinds = []string{"", "", "deadline", "canceled", "closed", "status:8", "status:4", "status:14", "status:1", "wrapped-deadline"}
+
+// ErrValue builds the error value of flavour kind carrying msg where the flavour allows it.
+func ErrValue(kind, msg string) error {
+	switch {
+	case kind == "deadline":
+		return context.DeadlineExceeded
+	case kind == "wrapped-deadline":
+		return fmt.Errorf("%s: %w", msg, context.DeadlineExceeded)
+	case kind == "canceled":
+		return context.Canceled
+	case kind == "closed":
+		return ttrpc.ErrClosed
+	case strings.HasPrefix(kind, "status:"):
+		n, _ := strconv.Atoi(kind[len("status:"):])
+		return status.Error(codes.Code(n), msg)
+	}
+	return fmt.Errorf("%s", msg)
+}
+
+// ErrText is a text that the error a caller gets for a handler error of flavour kind must contain.
+func ErrText(kind, msg string) string {
+	switch kind {
+	case "deadline":
+		return "deadline exceeded"
+	case "canceled":
+		return "canceled"
+	case "closed":
+		return "ttrpc: closed"
+	}
+	return msg
 }
 
 func (p *Plug) Configure(ctx context.Context, config, runtime, version string) (api.EventMask, error) {
